@@ -30,6 +30,10 @@ for pid in ("C02", "C05", "C09", "C10", "C11", "C12", "C17"):
     rng = random.Random(C.seed() * 1000003 + sum(ord(x) for x in pid))
     for c in k2check.configs("quick", rng, pid):
         cfgs.setdefault(c.key(), c)
+# further K2 builds used by the quick tier: the real stripe limit, the allocator-policy builds, the placement / locked phases
+for c in [k2.Cfg(4, 65536, 0, 4)] + [k2.Cfg(2, 4, 0, 0, apol=a) for a in range(8)] + \
+        [k2.Cfg(S, M, k, 0) for (S, M, k) in ((1, 2, 0), (2, 4, 0), (4, 8, 0), (4, 2, 0), (2, 4, 1), (4, 2, 2))]:
+    cfgs.setdefault(c.key(), c)
 with cf.ThreadPoolExecutor(max_workers=15) as ex:
     futs = [ex.submit(k2.harness_for, c) for c in cfgs.values()]
     futs += [ex.submit(k3.harness_for, *c) for c in k3.CONFIGS_QUICK]
@@ -38,6 +42,8 @@ with cf.ThreadPoolExecutor(max_workers=15) as ex:
         futs.append(ex.submit(k6.harness, t))
     futs.append(ex.submit(C.build_harness, "k4-tsan", "k4_tsan.cc", ["-O1", "-g", "-fsanitize=thread", "-U" + C.GUARD], "clang++-14"))
     futs.append(ex.submit(C.build_harness, "k1_arith", "k1_arith.cc", ["-O1"], "g++", ["translate/arith_shim.cc"]))
+    futs.append(ex.submit(C.build_harness, "k4-tsan-lazy", "k4_tsan.cc", ["-O1", "-g", "-fsanitize=thread", "-DLIBCUCKOO_VERIF_MAX_NUM_LOCKS=4"], "clang++-14"))
+    futs.append(ex.submit(C.build_harness, "k1-split", "k1_split.cc", ["-O1", "-g"]))
     bad = [f.result()[2][-400:] for f in futs if not f.result()[0]]
 print("harnesses built: %d, failed: %d" % (len(futs), len(bad)))
 for b in bad[:3]:
